@@ -672,11 +672,12 @@ under one environment without fault plan: if every load of the history satisfies
 state it starts from (`CleanLoad`, `NoProbedKeyFilled`, and the same for the registrations still in
 the channel: `NoPendingKeyFilled`), then after **every** `hot_reload` step everything registered and
 cached is settled, the index is exact and the channel is drained. Loads need not be separated by
-`hot_reload`s. `LoadHist` also admits `get_or_insert` (a static entry; same two no-fill hypotheses) and the
-operations that leave the cache as it is (`get_cached`, `contains`). Not covered: `remove` / `take` /
-`clear` (the cache shrinks: an asset that loaded the removed key is no longer settled — its
-re-evaluation misses — unless nothing registered depends on it; all lemmas here rest on the cache only
-growing), `load_owned` (registers a key it does not cache; its loader is re-run, not read back),
+`hot_reload`s. `LoadHist` also admits `get_or_insert` (a static entry; same two no-fill hypotheses), the
+operations that leave the cache as it is (`get_cached`, `contains`), and `remove` / `take` of a key on which
+nothing registered and cached (and no registration still in the channel) depends (`NoDependentOn`;
+necessary: `C05_remove_breaks_settled`). Not covered: `clear` (its `Clear` message and the registrations
+still in the channel for entries that are gone need a weaker notion of good registration),
+`load_owned` (registers a key it does not cache; its loader is re-run, not read back),
 `notify` / `enhance` / edits (that is `C05_hot_reload_converges_partial`). -/
 theorem C05_history_settled_partial (env : Env) (hS : env.Steady) (fuel : Nat) (h : List (Env × HOp))
     (hh : LoadHist env fuel h ({}, {})) :
@@ -703,6 +704,23 @@ example :
         (.look (.getCached ke) _ _ rfl (.hotReload _ _ (.nil _)))))
     [(exEnv [1, 0] [10], .api (.load kb)), (exEnv [1, 0] [10], .api (.getOrInsert ⟨0, "z"⟩ (.int 5))),
      (exEnv [1, 0] [10], .api (.getCached ke))] [] rfl).1
+
+/-- **Non-vacuity** with `remove`: `load b` (loads `e`), `hot_reload`, `remove b` (nothing depends on `b`),
+`load b` again (a miss that hits `e`; the registration replaces the stale one), `hot_reload` -/
+example :
+    Settled (exEnv [1, 0] [10]) 10
+      (runH 10 ([(exEnv [1, 0] [10], .api (.load kb)), (exEnv [1, 0] [10], .hotReload), (exEnv [1, 0] [10], .api (.remove kb)),
+        (exEnv [1, 0] [10], .api (.load kb))] ++ [(exEnv [1, 0] [10], .hotReload)]) ({}, {})).1
+      (runH 10 ([(exEnv [1, 0] [10], .api (.load kb)), (exEnv [1, 0] [10], .hotReload), (exEnv [1, 0] [10], .api (.remove kb)),
+        (exEnv [1, 0] [10], .api (.load kb))] ++ [(exEnv [1, 0] [10], .hotReload)]) ({}, {})).2.graph :=
+  (C05_history_settled_partial (exEnv [1, 0] [10]) (exEnv_steady _ _) 10
+    [(exEnv [1, 0] [10], .api (.load kb)), (exEnv [1, 0] [10], .hotReload), (exEnv [1, 0] [10], .api (.remove kb)),
+     (exEnv [1, 0] [10], .api (.load kb)), (exEnv [1, 0] [10], .hotReload)]
+    (.load kb _ _ _ (loadOK_of_check (by decide))
+      (.hotReload _ _ (.remove kb _ _ _ (noDependentOn_of_check (by decide))
+        (.load kb _ _ _ (loadOK_of_check (by decide)) (.hotReload _ _ (.nil _))))))
+    [(exEnv [1, 0] [10], .api (.load kb)), (exEnv [1, 0] [10], .hotReload), (exEnv [1, 0] [10], .api (.remove kb)),
+     (exEnv [1, 0] [10], .api (.load kb))] [] rfl).1
 
 /-- the cache and the reloader after `load(key)` and after the reloader has taken the registrations -/
 def loadDrain (env : Env) (fuel : Nat) (x : St × RSt) (key : Key) : St × RSt :=
@@ -984,6 +1002,36 @@ theorem C05_load_preserves_false_fill :
   intro hfill
   exact hst.not_settled
     (C05_load_settles_partial cxEnv 10 _ _ ⟨0, "x"⟩ cxEnv_steady h0.2.2 h0.1 h0.2.1 hclean hfill).1
+
+/-- **`remove` of a key something depends on breaks `Settled`** (`NoDependentOn` is necessary): after
+`load b` (which loads `e`) and `hot_reload` everything is settled; `remove e`; now re-evaluating `b`
+misses `e` — it is not a tracked hit-only run (a reload of `b` would load `e` during the pass). -/
+theorem C05_remove_breaks_settled :
+    ∃ (env : Env) (fuel : Nat) (x : St × RSt) (key : Key),
+      env.Steady ∧ x.1.out = [] ∧ Settled env fuel x.1 x.2.graph ∧ GraphOK x.2.graph ∧
+      ¬ NoDependentOn x.1 x.2.graph key ∧
+      ¬ Settled env fuel (hstep fuel (env, .api (.remove key)) x).1 (hstep fuel (env, .api (.remove key)) x).2.graph := by
+  have h0 := C05_history_settled_partial (exEnv [1, 0] [10]) (exEnv_steady _ _) 10
+    [(exEnv [1, 0] [10], .api (.load kb)), (exEnv [1, 0] [10], .hotReload)]
+    (.load kb _ _ _ (loadOK_of_check (by decide)) (.hotReload _ _ (.nil _)))
+    [(exEnv [1, 0] [10], .api (.load kb))] [] rfl
+  have hbad : ¬ Settled (exEnv [1, 0] [10]) 10
+      (hstep 10 (exEnv [1, 0] [10], .api (.remove ke))
+        (runH 10 ([(exEnv [1, 0] [10], .api (.load kb))] ++ [(exEnv [1, 0] [10], .hotReload)]) ({}, {}))).1
+      (hstep 10 (exEnv [1, 0] [10], .api (.remove ke))
+        (runH 10 ([(exEnv [1, 0] [10], .api (.load kb))] ++ [(exEnv [1, 0] [10], .hotReload)]) ({}, {}))).2.graph :=
+    not_settled_of_miss (k := kb) (by decide)
+  refine ⟨exEnv [1, 0] [10], 10, _, ke, exEnv_steady _ _, h0.2.2, h0.1, h0.2.1, ?_, hbad⟩
+  intro hdep
+  have hinv : HInv (exEnv [1, 0] [10]) 10
+      (runH 10 ([(exEnv [1, 0] [10], .api (.load kb))] ++ [(exEnv [1, 0] [10], .hotReload)]) ({}, {})) :=
+    (loads_settle (exEnv_steady _ _) (.load kb _ _ _ (loadOK_of_check (by decide)) (.hotReload _ _ (.nil _)))
+      (HInv.init _ _)).1
+  have h2 := (HInv.step_remove (exEnv_steady _ _) (key := ke) hinv hdep).pending
+  exact hbad (by
+    have h3 := h2.drain (exEnv_steady _ _) (r := (hstep 10 (exEnv [1, 0] [10], .api (.remove ke))
+      (runH 10 ([(exEnv [1, 0] [10], .api (.load kb))] ++ [(exEnv [1, 0] [10], .hotReload)]) ({}, {}))).2)
+    exact h3)
 
 /-! Non-vacuity -/
 example : GraphOK (Graph.insertAsset [] (.asset ⟨0, "a"⟩) [.file "a" "s"]) :=
